@@ -176,14 +176,14 @@ def parse(data):
 
 def fl_coq(f):
     t = f * 2
-    if f == f and abs(f) != float("inf") and t == int(t) and abs(t) < 2 ** 53 and not (f == 0 and str(f)[0] == "-"):
+    if f == f and abs(t) != float("inf") and t == int(t) and abs(t) < 2 ** 53 and not (f == 0 and str(f)[0] == "-"):
         return "(FHalf %s)" % core.coq_Z(int(t))
     return "(FBits %s)" % core.coq_Z(int.from_bytes(struct.pack(">d", f), "big"))
 
 
 def fl_canon(f):
     t = f * 2
-    if f == f and abs(f) != float("inf") and t == int(t) and abs(t) < 2 ** 53 and not (f == 0 and str(f)[0] == "-"):
+    if f == f and abs(t) != float("inf") and t == int(t) and abs(t) < 2 ** 53 and not (f == 0 and str(f)[0] == "-"):
         return ["f", int(t)]
     return ["fb", int.from_bytes(struct.pack(">d", f), "big")]
 
